@@ -60,6 +60,7 @@ type PacketConn struct {
 	unreachableSubs   *utils.Broker
 	context           context.Context
 	cancel            context.CancelFunc
+	closed            bool // Close was called; guarded by the listener lock
 }
 
 func NewPacketConnWithConst(s NetcForPacketConn, service string, advertise bool, adtags map[string]string, connTypeDatagram byte) *PacketConn {
@@ -269,6 +270,11 @@ func (pc *PacketConn) LocalAddr() net.Addr {
 func (pc *PacketConn) Close() error {
 	pc.s.GetListenerLock().Lock()
 	defer pc.s.GetListenerLock().Unlock()
+	if pc.closed {
+		// the service name may belong to a newer listener by now
+		return nil
+	}
+	pc.closed = true
 	delete(pc.s.GetListenerRegistry(), pc.localService)
 	if pc.cancel != nil {
 		pc.cancel()
